@@ -49,7 +49,52 @@ let show_out = function
   | SDoubleFree -> "DFREE"
   | SFuel -> "FUEL"
 
+(* ---- abstract connection programs ("CONN new;connect 0;disc 0;getsm 0;...") ---- *)
+let parse_cop (s : string) : cop option =
+  try (match split_ws s with
+   | ["new"] -> Some CNew
+   | ["clone"; c] -> Some (CClone (nat_of_field c))
+   | ["release"; c] -> Some (CRelease (nat_of_field c))
+   | ["connect"; c] -> Some (CConnect (nat_of_field c))
+   | ["disc"; c] -> Some (CDisconnect (nat_of_field c))
+   | ["send"; c] -> Some (CSend (nat_of_field c))
+   | ["getsm"; c] -> Some (CGetSm (nat_of_field c))
+   | ["setsm"; c; sm] -> Some (CSetSm (nat_of_field c, nat_of_field sm))
+   | ["freesm"; sm] -> Some (CFreeSm (nat_of_field sm))
+   | _ -> None) with _ -> None
+
+let show_cout op out = match op, out with
+  | CRelease _, CReleased true -> ["REL=1"]
+  | CRelease _, CReleased false -> ["REL=0"]
+  | CGetSm _, COk -> ["GETSM=1"]
+  | CGetSm _, CRefused -> ["GETSM=0"]
+  | CSetSm _, COk -> ["SETSM=ok"]
+  | CSetSm _, CRefused -> ["SETSM=refused"]
+  | _, CBad -> ["BAD"]
+  | _, CUAF -> ["UAF"]
+  | _, CDoubleFree -> ["DFREE"]
+  | _, _ -> []
+
+let conn_line (body : string) : string =
+  let ops = List.map parse_cop (List.filter (fun x -> String.trim x <> "") (String.split_on_char ';' body)) in
+  if List.exists (fun x -> x = None) ops then "UNPARSABLE" else
+  let ops = List.filter_map (fun x -> x) ops in
+  let (outs, fin) = crun_from fx cinit ops in
+  let rec zip a b = match a, b with x :: r, y :: t -> (x, y) :: zip r t | _, _ -> [] in
+  let toks = List.concat_map (fun (o, out) -> show_cout o out) (zip ops outs) in
+  match fin with
+  | None -> String.concat " " (toks @ ["STOP"])
+  | Some w ->
+      (* what simworld does at the end of a scenario: free a held SM state, drop every reference *)
+      let cleanup = List.map (fun sm -> CFreeSm sm) w.w_user_sm @ List.map (fun c -> CRelease c) w.w_user_conn in
+      let (outs2, fin2) = crun_from fx w cleanup in
+      let errs = List.length (List.filter (fun o -> o = CUAF || o = CDoubleFree || o = CBad) outs2) in
+      (match fin2 with
+       | Some w2 -> String.concat " " (toks @ [Printf.sprintf "END live=%d allocerr=%d" (int_of_z (clive w2)) errs])
+       | None -> String.concat " " (toks @ ["ENDCRASH STOP"]))
+
 let () = iter_lines (fun line ->
+  if String.length line >= 5 && String.sub line 0 5 = "CONN " then conn_line (String.sub line 5 (String.length line - 5)) else
   let parsed = List.filter_map parse_op (String.split_on_char ';' line) in
   if List.exists (fun x -> x = None) parsed then "WO0 UNPARSABLE" else
   let prog = List.filter_map (fun x -> x) parsed in
